@@ -9,7 +9,7 @@ def doc(level, ref):
 
 TEXT = {
  "C02": doc("TLC enumerates every abstract document up to the bound (and simulates deeper ones), runs of text / inline elements / form controls / empty headings in one parent placed in list items, quotes and table cells, and every paragraph child sequence; each becomes a real page whose words are unique tokens; TLC validates every recorded run against the trace spec and evaluates NothingInvented/OnlyVisibleText/OrderKeptOnce on it. Two fidelity stages replay the real builder calls against spec/Convert.tla and the real distilled HTML against spec/Render.tla (differences are DRIFT; mechanism-level C02 predicates are judged on the recorded calls / items). Bounded-exhaustive over document shapes, not a proof.", "DESIGN.md 7 C02"),
- "C03": doc("TLC enumerates every child sequence of a paragraph up to the bound over the inline alphabet, in five placements; ParaAllOrNothing is evaluated by TLC on each real run.", "DESIGN.md 7 C03"),
+ "C03": doc("TLC proves on spec/Convert.tla that a simple paragraph lands in one group of Text elements for every paragraph shape of the bound (the lost-siblings defect toggle must fail), and on spec/TextFilters.tla that no sequence of filter steps (merge neighbours, change a flag, drop boilerplate) splits a block or gives two texts of one initial block different flags. TLC enumerates every child sequence of a paragraph up to the bound over the inline alphabet, in seven placements (also bare in cells and list items); ParaAllOrNothing is evaluated by TLC on each real run, and the block list recorded after every one of the text filters of the real run (hook) is checked step by step against the structural model (BlocksNeverSplit, TextFlagsFollowBlocks).", "DESIGN.md 7 C03"),
  "C04": doc("TLC enumerates placements of hidden / script-like / form-like content in every container kind incl. the wholesale-clone paths (data table, linked caption, tweet); NoLeak predicates evaluated by TLC on each real run.", "DESIGN.md 7 C04"),
  "C05": doc("TLC enumerates documents over all output element kinds; the driver decorates every element with handler/id/class/style/data noise; TLC evaluates the census predicates on each real run.", "DESIGN.md 7 C05"),
  "C07": doc("TLC proves on spec/DocFilters.tla that a tag pair is content iff it encloses content for all balanced tag sequences of the bound, and on spec/Render.tla (rendering of the flagged element list: TreeClone, parent wrapper, inline-root climb, inner html for nestable roots) that for every document of the bound and EVERY assignment of content flags the distilled HTML is balanced, holds each content text node once and in order, and shows it under the chain of list/quote/pre elements it has in the source (a defect toggle must fail). TLC enumerates all nestings of ul/ol/li/blockquote/pre up to the bound with kept/dropped leaves and data tables; ChainsPreserved and TableWhole are evaluated by TLC on each real run; the recorded element lists are run through the filter models and the real distilled HTML is compared item by item with Render.tla.", "DESIGN.md 7 C07"),
